@@ -59,11 +59,22 @@ template <class Scalar> static std::vector<Outcome> run_t(const Spec &s, const N
   std::vector<Outcome> out; const long double eps = std::numeric_limits<Scalar>::epsilon();
   // the other registry holds a decoy of the same solution type with default parameters: an entry point of this scalar type that
   // consults the wrong registry then returns a wrong value (judged by the oracle, shrinkable) instead of ending the process
-  { Quiet q; masa_verif_reset(); if (sizeof(Scalar) > 8) masa_init<double>("decoy", c.sol); else masa_init<long double>("decoy", c.sol); masa_init<Scalar>("numcase", c.sol); }
+  // The handle under test is spelled like the solution (the idiom of the library's own tests). Every fourth case (a pure function of the case)
+  // additionally lives in a populated registry: a bystander handle of the same solution type is initialised after the first init of the handle
+  // under test, which is then re-initialised while the bystander is selected -- masa_init must select it and give it fresh defaults; nothing
+  // selects explicitly before the parameters are set. Before the second phase the bystander is re-initialised and the handle under test selected
+  // back. At the end the bystander must still hold exactly the values it had after its own masa_init. A registry that releases, keeps or
+  // selects the wrong instance then shows up in the numeric property that was computed on it.
+  const std::string H = c.sol, BY = "bystander"; const bool populated = c.only.empty() && case_hash(c) % 4 == 0; std::map<std::string, long double> by0;
+  { Quiet q; masa_verif_reset(); if (sizeof(Scalar) > 8) masa_init<double>("decoy", c.sol); else masa_init<long double>("decoy", c.sol);
+    if (populated) { masa_init<Scalar>(H, c.sol); masa_init<Scalar>(BY, c.sol); } }
+  if (populated) by0 = read_params<Scalar>(param_names(sizeof(Scalar) > 8));      // the bystander is the selected handle here
+  { Quiet q; masa_init<Scalar>(H, c.sol); }
   { Quiet q; for (auto &kv : c.params) masa_set_param<Scalar>(kv.first, (Scalar)kv.second); }
   set_callback(c.cb_kind, c.cb);
   if (!c.vec.empty()) { std::vector<Scalar> v; for (auto x : c.vec) v.push_back((Scalar)x); Quiet q; masa_set_vec<Scalar>("vec_data", v); std::vector<Scalar> back; masa_get_vec<Scalar>("vec_data", back); std::vector<Q> qv; for (auto x : back) qv.push_back(Q((long double)x)); set_current_vec(qv); }
-  auto names = param_names(sizeof(Scalar) > 8); auto held = read_params<Scalar>(names);
+  auto names = param_names(sizeof(Scalar) > 8);
+  auto held = read_params<Scalar>(names);
   PM p; for (auto &kv : held) p[kv.first] = Q(kv.second);     // the oracle sees the parameters the library holds
   // ... and the library must hold them at the working precision of the interface they were passed through
   for (auto &kv : c.params) { auto it = held.find(kv.first); if (it == held.end()) continue; Scalar want = (Scalar)kv.second, got = (Scalar)it->second; if (memcmp(&want, &got, sizeof(Scalar) > 8 ? 10 : 8) != 0 && !(want == 0 && got == 0)) { Outcome o; o.label = "parameter-store:" + kv.first; o.lib = it->second; o.ref = Q(kv.second); o.err = 1e300; o.status = 1; o.note = "masa_set_param/masa_get_param do not preserve the value at the precision of this scalar type"; out.push_back(o); break; } }
@@ -108,10 +119,16 @@ template <class Scalar> static std::vector<Outcome> run_t(const Spec &s, const N
   // Second phase on the SAME handle: every parameter is changed through masa_set_param (x 1.0625; admissibility is preserved because all
   // amplitudes and offsets scale alike) and every evaluator is called again at the SAME point. A value cached per object or per process
   // (last point, last time, first Gamma seen) and not refreshed by masa_set_param shows up here, reproducibly from this one case.
+  auto verify_bystander = [&](const std::string &when) { if (!populated) return; { Quiet q; masa_select_mms<Scalar>(BY); } auto by1 = read_params<Scalar>(names); { Quiet q; masa_select_mms<Scalar>(H); }
+    for (auto &kv : by0) { Scalar a = (Scalar)kv.second, b = (Scalar)by1[kv.first]; if (memcmp(&a, &b, sizeof(Scalar) > 8 ? 10 : 8) != 0) { Outcome o; o.label = "registry (" + when + "): bystander handle, parameter " + kv.first; o.lib = by1[kv.first]; o.ref = Q(kv.second); o.err = 1e300; o.status = 1;
+        o.note = "a second handle of the same solution type, initialised before the handle under test was re-initialised and never selected while parameters were set, no longer holds the values it had after its masa_init: the calls of this case reached the wrong instance"; out.push_back(o); break; } } };
+  verify_bystander("after the first phase");
+  if (populated) { Quiet q; masa_select_mms<Scalar>(H); masa_init<Scalar>(BY, c.sol); masa_select_mms<Scalar>(H); }     // select, init another handle, select back
   if (c.only.empty() && s.name != "sod_1d") {
     { Quiet q; for (auto &kv : held) masa_set_param<Scalar>(kv.first, (Scalar)(kv.second * 1.0625L)); }
     auto held2 = read_params<Scalar>(names); p.clear(); for (auto &kv : held2) p[kv.first] = Q(kv.second);
     prefix = "after set_param: "; evaluate_all(); mirror(); prefix.clear(); }
+  verify_bystander("end of case");
   if (s.relations && c.only.empty() && prop != "C07") { try { s.relations(c, p, out, K); } catch (std::exception &ex) { Outcome o; o.label = "relations"; o.status = 1; o.err = 1e300; o.note = ex.what(); out.push_back(o); } }
   return out;
 }
